@@ -257,7 +257,15 @@ func c20Square[E algebra.PrimeGroupElement[E, S], S algebra.PrimeFieldElement[S]
 		}
 		nontrivialKernel := symalg.And(symalg.And(kern...), symalg.Or(nz...))
 		if ierr == nil {
-			env.Valid("C20.b/TryInv succeeds ⇒ kernel trivial", symalg.Not(nontrivialKernel))
+			// for n ≥ 3 the query is an inconsistent system of n linear congruences in n unknowns, on
+			// which z3 and cvc5 often answer `unknown` (23 of 30 thorough 4×4 cases, 3 of the 3×3 ones):
+			// the solver oracle is stated for n ≤ 2; for larger n invertibility is covered by the
+			// A·A⁻¹ = I clause below
+			if n <= 2 {
+				env.Valid("C20.b/TryInv succeeds ⇒ kernel trivial", symalg.Not(nontrivialKernel))
+			} else {
+				env.Reach("C20.b/kernel oracle skipped for n ≥ 3 (stated bound)")
+			}
 		} else {
 			env.Witness("C20.b/TryInv refuses ⇒ kernel non-trivial", nontrivialKernel)
 		}
